@@ -57,7 +57,12 @@ def gen_case(rng):
     if kind == "lossless":
         if rng.random() < 0.5:  # component lengths around the 8-bit boundary (each `1` costs 4 bits)
             L = rng.choice([254, 255, 256, 257, 509, 510, 511, 512, 513, 765, 768])
-            slices[0] = (([1] * (2 * L), [0] * (2 * L)), slices[0][1], slices[0][2])
+            big = ([1] * (2 * L), [0] * (2 * L))
+            which = rng.randrange(3)    # the long component is Y, C1 or C2
+            slices[0] = tuple(big if k == which else slices[0][k] for k in range(3))
+            if which:  # c1 and c2 have equally many coefficients
+                other = 3 - which
+                slices[0] = tuple(([0] * (2 * L), [0] * (2 * L)) if k == other else slices[0][k] for k in range(3))
         case["min_scaler"] = rng.choice([1, 1, 2])
     elif kind == "hq":
         # from the minimum up to slices of several multiples of 255 bytes (safe scalers 1..5), with scaler overrides below,
